@@ -163,6 +163,9 @@ static void fill(int n, int v)
 		for (int i = 0; i < n; i++)
 			if (!buf[i])
 				buf[i] = 'x'; /* NUL-free */
+	if (v == 3)
+		for (int i = 0; i < n; i++)
+			buf[i] = (unsigned char)"abcdefghijklmnopqrstuvwxyz0123456789 ,.;"[i % 40]; /* nothing to escape: one long run for the serializer */
 }
 
 /* model length -> real length (P = 2 in the model, 8 here) */
@@ -251,6 +254,20 @@ static int drive(int start, int nexec, int nops)
 		int v = (int)vh_below(3);
 		fill(n, v);
 		do_new(buf, n, v == 2 && vh_below(2));
+		if (x % 60 == 59)
+		{
+			/* large values in succession: the node (and the print buffer it caches for serialization) is already
+			 * large when a much larger / much smaller value arrives */
+			static const int seq[][4] = {{9005, 40005, 100, 66000}, {8200, 20000, 5, 33000}, {16000, 60000, 0, 300}};
+			const int *q = seq[vh_below(3)];
+			for (int i = 0; i < 4; i++)
+			{
+				fill(q[i], vh_below(2) ? 3 : (int)vh_below(2));
+				do_set(buf, q[i], 0);
+			}
+			do_delete();
+			continue;
+		}
 		int ops = 1 + (int)vh_below((uint32_t)nops);
 		for (int i = 0; i < ops; i++)
 		{
